@@ -47,6 +47,10 @@ class CombinedDataHandler:
             indices_with_null_val = data[result_cols].isna().any(axis=1)
             data.update(data[result_cols].fillna(value=0))
             data.loc[indices_with_null_val, "percent_expected_vote"] = 0
+            # the quantities derived from the results (two party votes, normalized margin, turnout factor, ...) of these
+            # units are missing as well and have to be zero too, otherwise they turn every sum they enter into NaN
+            derived_cols = [col for col in data.columns if col.startswith("results_") or col == "turnout_factor"]
+            data.loc[indices_with_null_val, derived_cols] = data.loc[indices_with_null_val, derived_cols].fillna(value=0)
 
         self.n_minimum_for_outlier_detection_model = 20
         self.data = data
